@@ -153,6 +153,9 @@ def h_termini(eng, layout, first=None, na=3, strict=False):
             # C02 speaks about successful runs only; C12 (strict) requires well-formed structures to be processed
             eng.check(not strict, "well-formed-structure-processed" if strict else "loud-failure-tolerated", note=f"{desc}: set_termini raised {type(e).__name__}: {str(e)[:80]}")
             return
+    # the chain view (bm.chains, from which bm.atoms, --clean and --pdb-output are produced) lists every residue exactly once
+    in_chains = [id(r) for c in bm.chains for r in c.residues]
+    eng.check(sorted(in_chains) == sorted(id(r) for r in bm.residues), "chain-view-agrees-with-residues", note=f"after set_termini the chains hold {len(in_chains)} residue entries ({len(set(in_chains))} distinct), the structure has {len(bm.residues)} residues")
     # the path condition fixes every closure comparison the code made; the oracle is evaluated under it
     got_n = {k for k, r in res_by_key.items() if getattr(r, "is_n_term", 0)}
     got_c = {k for k, r in res_by_key.items() if getattr(r, "is_c_term", 0)}
